@@ -139,10 +139,11 @@ type c19Cfg struct {
 	total   int64 // -1 = unknown (bar created with 0, SetTotal(-1,true) at EOF)
 	ewma    int   // 0 none, 1 plain, 2 wrapped two levels, 3 two decorators (plain + wrapped)
 	copyDrv bool
+	pre     int64 // the bar is advanced by this much before the proxy is used (only with ewma == 0)
 }
 
 func (c c19Cfg) id(side string) string {
-	return fmt.Sprintf("%s kind=%d len=%d sizes=%v errAt=%d total=%d ewma=%d copy=%v", side, c.kind, c.length, c.sizes, c.errAt, c.total, c.ewma, c.copyDrv)
+	return fmt.Sprintf("%s kind=%d len=%d sizes=%v errAt=%d total=%d ewma=%d copy=%v pre=%d", side, c.kind, c.length, c.sizes, c.errAt, c.total, c.ewma, c.copyDrv, c.pre)
 }
 
 // second receives the samples of the second decorator when c.ewma == 3
@@ -174,7 +175,11 @@ func c19Bar(c c19Cfg, samples *[]ioCall) (*mpb.Progress, *mpb.Bar) {
 	if t < 0 {
 		t = 0
 	}
-	return p, p.AddBar(t, opts...)
+	bar := p.AddBar(t, opts...)
+	if c.pre > 0 {
+		bar.IncrInt64(c.pre)
+	}
+	return p, bar
 }
 
 func c19Reader(env *SeqEnv, c c19Cfg) {
@@ -282,7 +287,7 @@ func c19Reader(env *SeqEnv, c c19Cfg) {
 		if base.closed != wantClosed || cerr != nil {
 			return out, true, "close", fmt.Sprintf("Close forwarded %d times (err %v), want %d", base.closed, cerr, wantClosed)
 		}
-		wantCur := int64(delivered)
+		wantCur := int64(delivered) + c.pre
 		switch {
 		case c.total < 0:
 			// adopted at SetTotal(-1,true)
@@ -460,7 +465,7 @@ func c19Writer(env *SeqEnv, c c19Cfg) {
 		if base.closed != wantClosed || cerr != nil {
 			return out, true, "close", fmt.Sprintf("Close forwarded %d times (err %v), want %d", base.closed, cerr, wantClosed)
 		}
-		wantCur := int64(accepted)
+		wantCur := int64(accepted) + c.pre
 		if c.total > 0 && wantCur > c.total {
 			wantCur = c.total
 		}
@@ -507,11 +512,16 @@ func c19Chunks(tier string) []SeqChunk {
 								}
 								for ewma := 0; ewma < 4; ewma++ {
 									for _, cp := range []bool{false, true} {
-										c := c19Cfg{kind, l, sz, errAt, total, ewma, cp}
-										if side == "reader" {
-											c19Reader(env, c)
-										} else {
-											c19Writer(env, c)
+										for _, pre := range []int64{0, 2} {
+											if pre > 0 && (ewma != 0 || (total >= 0 && total <= pre)) {
+												continue
+											}
+											c := c19Cfg{kind, l, sz, errAt, total, ewma, cp, pre}
+											if side == "reader" {
+												c19Reader(env, c)
+											} else {
+												c19Writer(env, c)
+											}
 										}
 									}
 								}
